@@ -187,7 +187,15 @@ func (r *WireReader) ReadWire(l int) (Wire, error) {
 	if l > r.Length()-r.Pos() {
 		return nil, io.ErrUnexpectedEOF
 	}
-	ret := make(Wire, 0, len(r.wire)-r.seg)
+	// Reserve room for the segments the l bytes span, not for every segment that is
+	// left: a wire of many segments read in many small pieces would otherwise cost
+	// (segments x reads) memory, however few bytes it holds.
+	nSegs := 0
+	for seg, pos, rem := r.seg, r.pos, l; rem > 0 && seg < len(r.wire); seg, pos = seg+1, 0 {
+		rem -= len(r.wire[seg]) - pos
+		nSegs++
+	}
+	ret := make(Wire, 0, nSegs)
 	for l > 0 {
 		if r.seg >= len(r.wire) {
 			return nil, io.ErrUnexpectedEOF
